@@ -1,10 +1,16 @@
 """C18 — trash-put acts on the named entry itself and never follows a final symlink."""
 from ..putfamily import replay_family, run_family
 
-CFG = {"oracles": ("C18", "C01"), "violations": ("C18", "C18-link-not-trashed"), "profile": "links", "states": False}
+CFG = {"oracles": ("C18", "C01"), "violations": ("C18", "C18-link-not-trashed", "C18-slash"), "profile": "links", "states": False}
 LEVEL_NOTE = ("theorems: string layer (normpath never leaves a trailing slash, the last component survives), kernel "
               "resolution does not follow a final symlink, the core moves the link node and frames its target; the "
-              "restore half (same link comes back) is checked by C02's pipelines")
+              "restore half (same link comes back) is checked by C02's pipelines; C18Cmd (whole runs of trash-put): "
+              "put_trailing_slashes_any_oracle (P/n and P/n/// are the same run whenever the slashed spelling exists for lstat), "
+              "put_link_home_partial / _first_use_partial (files/n IS the link node, nothing below it, Path = the link's own location, "
+              "everything else unchanged), put_link_volume_follows_link_not_target(_other) (the trash directory is on the link's "
+              "device, nothing on any other device changes), put_link_trailing_slash_dir_target, put_through_link_then_link (two "
+              "arguments in one run), put_link_restore_identity; _partial because 'dangling/' and 'link-to-file/' do not exist for "
+              "lstat and are refused untouched (kernel-checked counterexamples, real behaviour)")
 RULE = ("seeded random put worlds biased to symlink arguments: link to file / dir / nothing / absolute target / another "
         "link / the top directory of another volume, 0-3 trailing slashes, an entry reached through a cross-volume link followed by "
         "that link itself in one run, reached through a symlinked parent, link and target on "
